@@ -50,6 +50,17 @@ def observables(a):
         out["dipolar"] = sorted((min(a[int(i)].symbol, a[int(j)].symbol), max(a[int(i)].symbol, a[int(j)].symbol), round(float(d) / 1e0, 3)) for (i, j), (d, v) in dc.items())
     rss = DipolarRSS.get(a, cutoff=5.03)
     out["rss"] = sorted((a[i].symbol, round(float(r), 2)) for i, r in enumerate(rss))
+    rssi = DipolarRSS.get(a, cutoff=9.03, isonuclear=True)        # cutoff longer than the shortest lattice vectors: own periodic copies count
+    out["rss_iso"] = sorted((a[i].symbol, round(float(r), 2)) for i, r in enumerate(rssi))
+    # element-pair distances WITH the pairs they belong to, keyed by the atoms' own positions so that they survive a relabelling
+    from soprano.properties.linkage import ElementPairs
+    syms_ = a.get_chemical_symbols()
+    els_ = sorted(set(syms_))
+    if len(els_) >= 2:
+        e1, e2 = els_[0], els_[1]
+        d_, prs_ = ElementPairs.get(a, element1=e1, element2=e2, return_pairs=True)
+        out["element_pairs"] = sorted(round(float(x), 6) for x in d_)
+        out["_pair_table"] = {(int(i), int(j)): round(float(x), 6) for x, (i, j) in zip(d_, prs_)}
     # periodic sphere around atom 0: number of copies of each element inside
     s = AtomSelection.from_sphere(a, a.get_positions()[0], 4.03, periodic=True)
     out["sphere"] = sorted(a[int(i)].symbol for i in s.indices)
@@ -155,7 +166,15 @@ def run(ctx):
                 continue
             if mult is None:
                 # the sphere selection is centred on atom 0: skip it for permutations (a different atom)
-                keys = [k for k in ob if not (name == "permute" and k == "sphere") and k != "all_finite"]
+                keys = [k for k in ob if not (name == "permute" and k == "sphere") and k != "all_finite" and not k.startswith("_")]
+                if "_pair_table" in ob and "_pair_table" in ov and name in ("permute", "translate", "rotate-exact", "lattice-shifts"):
+                    relab = (lambda i: info["perm"].index(i)) if name == "permute" else (lambda i: i)
+                    for (i_, j_), dv in ob["_pair_table"].items():
+                        dn = ov["_pair_table"].get((relab(i_), relab(j_)))
+                        if dn is None or abs(dn - dv) > 1e-5:
+                            ctx.fail_input("metamorphic", dict(case0, transform=name, **info),
+                                           "%s: ElementPairs reports %.6f for the pair of atoms (%d,%d), %s after the transformation and relabelling" % (name, dv, i_, j_, dn), classify)
+                            break
                 k = diff(ob, ov, keys)
                 ctx.seen((name, kind, k is None))
                 if k:
@@ -166,7 +185,7 @@ def run(ctx):
                     p = "molecule count %d -> %d (x%d expected)" % (ob["n_molecules"], ov["n_molecules"], mult)
                 elif len(ov["bond_lengths"]) != mult * len(ob["bond_lengths"]) or sorted(set(ov["bond_lengths"])) != sorted(set(ob["bond_lengths"])):
                     p = "bond count %d -> %d (x%d expected) or different bond lengths" % (len(ob["bond_lengths"]), len(ov["bond_lengths"]), mult)
-                elif sorted(set(ov["rss"])) != sorted(set(ob["rss"])):
+                elif sorted(set(ov["rss"])) != sorted(set(ob["rss"])) or sorted(set(ov["rss_iso"])) != sorted(set(ob["rss_iso"])):
                     p = "per-site dipolar RSS values change"
                 elif sorted(set(ov["molecule_masses"])) != sorted(set(ob["molecule_masses"])):
                     p = "molecule masses change"
